@@ -1544,3 +1544,42 @@ func (e *Env) uninterpreted(sf *SpecFunc) (Val, error) {
 
 // globalFacts: nothing beyond what LoadAddr states for error sentinels.
 func (x *Exec) globalFacts(o *types.Var, v Val) {}
+
+// setGhostField performs the ghost assignment xv.$name = v in state e.st (scalar-layout ghost fields only).
+func (e *Env) setGhostField(xv Val, name string, v Val) error {
+	u := e.u()
+	cur, err := e.ghostField(xv, name)
+	if err != nil {
+		return err
+	}
+	if cur.T == nil {
+		return fmt.Errorf("ghost set: array-valued ghost field $%s cannot be assigned", name)
+	}
+	if len(cur.S) != len(v.S) {
+		return fmt.Errorf("ghost set $%s: value has %d components, field has %d", name, len(v.S), len(cur.S))
+	}
+	// cur.S[i] is (select <comp> <ref>): recover both
+	for i := range cur.S {
+		t := cur.S[i].S
+		if !strings.HasPrefix(t, "(select ") {
+			return fmt.Errorf("ghost set $%s: unexpected term %s", name, t)
+		}
+		parts := sexpTop(t[1 : len(t)-1])
+		if len(parts) != 3 {
+			return fmt.Errorf("ghost set $%s: unexpected term %s", name, t)
+		}
+		comp, ref := parts[1], parts[2]
+		var cname string
+		for k, ht := range e.st.Heap {
+			if ht.S == comp {
+				cname = k
+			}
+		}
+		if cname == "" {
+			return fmt.Errorf("ghost set $%s: component %s not found", name, comp)
+		}
+		arr := e.st.Heap[cname]
+		u.setComp(e.st, cname, Store(arr, Term{ref, SInt}, v.S[i]))
+	}
+	return nil
+}
